@@ -99,6 +99,12 @@ impl BlockTable {
 /// C03 oracle. Returns (key suffix, description) for every disagreement between the node's
 /// observable state and the replay of the ancestor path of its reported tip.
 pub fn check_consistency(n: &Node, table: &BlockTable, max_id: u64) -> Vec<(String, String)> {
+    check_consistency_above(n, table, max_id, 0)
+}
+
+/// Like `check_consistency`, but index and flags are judged only above `floor` (in addition to the
+/// purge horizon of the current tip).
+pub fn check_consistency_above(n: &Node, table: &BlockTable, max_id: u64, floor: u64) -> Vec<(String, String)> {
     let mut v = vec![];
     let tip_hash = n.chain.get_latest_block_hash();
     let tip_id = n.chain.get_latest_block_id();
@@ -122,7 +128,7 @@ pub fn check_consistency(n: &Node, table: &BlockTable, max_id: u64) -> Vec<(Stri
         v.push(("tip_id".into(), format!("tip hash {} has id {} but get_latest_block_id says {}", hx(&tip_hash), tipb.id, tip_id)));
     }
     // (i) by-height index: only heights the node still keeps (younger than the purge horizon)
-    let horizon = tip_id.saturating_sub(2 * gp);
+    let horizon = tip_id.saturating_sub(2 * gp).max(floor);
     let on_path: BTreeMap<u64, SaitoHash> = path.iter().map(|b| (b.id, b.hash)).collect();
     for id in 1..=max_id.max(tip_id + 2) {
         if id <= horizon {
